@@ -167,6 +167,82 @@ func init() {
 				return true
 			})
 			fmt.Fprintf(&e.b, "Definition inv_encode_addr_conds : list string := %s.\n", c16StrList(conds))
+			// switch: GobEncode returns an error for a nil pointer argument before it
+			// hands the argument to gob (`if v := reflect.ValueOf(arg); v.Kind() ==
+			// reflect.Ptr && v.IsNil() { return nil, ... }` ahead of enc.Encode(arg))
+			var encPos, testPos token.Pos
+			ast.Inspect(fd.Body, func(n ast.Node) bool {
+				switch n := n.(type) {
+				case *ast.CallExpr:
+					if types.ExprString(n.Fun) == "enc.Encode" && len(n.Args) == 1 && types.ExprString(n.Args[0]) == "arg" && encPos == token.NoPos {
+						encPos = n.Pos()
+					}
+				case *ast.IfStmt:
+					as, ok := n.Init.(*ast.AssignStmt)
+					if !ok || len(as.Lhs) != 1 || len(as.Rhs) != 1 || types.ExprString(as.Rhs[0]) != "reflect.ValueOf(arg)" {
+						return true
+					}
+					v := types.ExprString(as.Lhs[0])
+					if types.ExprString(n.Cond) != v+".Kind() == reflect.Ptr && "+v+".IsNil()" {
+						return true
+					}
+					for _, st := range n.Body.List {
+						if rs, ok := st.(*ast.ReturnStmt); ok && len(rs.Results) == 2 && types.ExprString(rs.Results[0]) == "nil" && types.ExprString(rs.Results[1]) != "nil" && testPos == token.NoPos {
+							testPos = n.Pos()
+						}
+					}
+				}
+				return true
+			})
+			if encPos == token.NoPos {
+				e.fail("GobEncode: call enc.Encode(arg) not found")
+			}
+			fmt.Fprintf(&e.b, "Definition encode_rejects_nil_pointer : bool := %s.\n", c15Bool(testPos != token.NoPos && testPos < encPos))
+		}
+		// switch: Session.run returns an error for a nil *Result argument before the
+		// invocation is made (`if result, ok := arg.(*Result); ok && result == nil
+		// { return nil, ... }` in a loop over args ahead of makeExecInvocation)
+		if fd := ex.findFunc("Session.run"); fd == nil || fd.Body == nil {
+			e.fail("method Session.run not found")
+		} else {
+			var mkPos, testPos token.Pos
+			ast.Inspect(fd.Body, func(n ast.Node) bool {
+				switch n := n.(type) {
+				case *ast.CallExpr:
+					if types.ExprString(n.Fun) == "makeExecInvocation" && mkPos == token.NoPos {
+						mkPos = n.Pos()
+					}
+				case *ast.RangeStmt:
+					if types.ExprString(n.X) != "args" || n.Value == nil {
+						return true
+					}
+					arg := types.ExprString(n.Value)
+					for _, st := range n.Body.List {
+						is, ok := st.(*ast.IfStmt)
+						if !ok {
+							continue
+						}
+						as, ok := is.Init.(*ast.AssignStmt)
+						if !ok || len(as.Lhs) != 2 || len(as.Rhs) != 1 || types.ExprString(as.Rhs[0]) != arg+".(*Result)" {
+							continue
+						}
+						r, okv := types.ExprString(as.Lhs[0]), types.ExprString(as.Lhs[1])
+						if types.ExprString(is.Cond) != okv+" && "+r+" == nil" {
+							continue
+						}
+						for _, st2 := range is.Body.List {
+							if rs, ok := st2.(*ast.ReturnStmt); ok && len(rs.Results) == 2 && types.ExprString(rs.Results[0]) == "nil" && types.ExprString(rs.Results[1]) != "nil" && testPos == token.NoPos {
+								testPos = n.Pos()
+							}
+						}
+					}
+				}
+				return true
+			})
+			if mkPos == token.NoPos {
+				e.fail("Session.run: call makeExecInvocation not found")
+			}
+			fmt.Fprintf(&e.b, "Definition run_rejects_nil_result : bool := %s.\n", c15Bool(testPos != token.NoPos && testPos < mkPos))
 		}
 		if fd := ex.findFunc("execInvocation.directEncodedFields"); fd == nil || fd.Body == nil {
 			e.fail("method execInvocation.directEncodedFields not found")
